@@ -375,6 +375,135 @@ def run(ctx):
                 d = r2.render_body(); sess.op('render', ('none' if d is None else f'some {list(d)}') + f' ser={CH.n}')
     
 
+    # ------------------------------------------------------------ (b2) round trips through whole apps, request after request
+    # The document is served by a responder of a real app (built through a public constructor, optionally with do-nothing
+    # request_type= / response_type= subclasses), the bytes sent are posted back to an app of either stack whose responder
+    # CHANGES the parsed document in place (it owns it), and then the same bytes are posted again: every request must see a
+    # fresh, equal document - nothing survives from one request to the next.
+    import copy
+
+    def build(stack, custom):
+        kw = {}
+        if stack == 'wsgi':
+            if custom in ('resp', 'both'): kw['response_type'] = type('MyResp', (falcon.Response,), {})
+            if custom in ('req', 'both'): kw['request_type'] = type('MyReq', (falcon.Request,), {})
+            ctor = falcon.API if custom == 'alias' else falcon.App
+        else:
+            if custom in ('resp', 'both'): kw['response_type'] = type('MyResp', (falcon.asgi.Response,), {})
+            if custom in ('req', 'both'): kw['request_type'] = type('MyReq', (falcon.asgi.Request,), {})
+            ctor = falcon.asgi.App
+        import warnings
+        with warnings.catch_warnings():
+            warnings.simplefilter('ignore')          # (falcon.API is deprecated, and still public)
+            return ctor(**kw)
+
+    def serve(stack, app, method, ctype=None, body=b''):
+        """one request through the whole app; returns (status code, response headers, payload)"""
+        out = {'body': b''}
+        hdrs = {'Content-Type': ctype, 'Content-Length': str(len(body))} if ctype else {}
+        if stack == 'wsgi':
+            env = ft.create_environ(method=method, path='/', headers=hdrs, body=body)
+            st = []
+            it = app(env, lambda sline, h, e=None: st.append((sline, h)))
+            out['body'] = b''.join(it)
+            return int(st[0][0][:3]), dict((k.lower(), v) for k, v in st[0][1]), out['body']
+        scope = ft.create_scope(method=method, path='/', headers=hdrs)
+        evs = [{'type': 'http.request', 'body': body, 'more_body': False}]
+
+        async def go():
+            never = asyncio.get_running_loop().create_future()
+
+            async def receive():
+                if evs: return evs.pop(0)
+                await never
+
+            async def send(m):
+                if m['type'] == 'http.response.start':
+                    out['status'] = m['status']; out['headers'] = {k.decode().lower(): v.decode() for k, v in m['headers']}
+                elif m['type'] == 'http.response.body':
+                    out['body'] += m.get('body', b'')
+            await asyncio.wait_for(app(scope, receive, send), 5)
+        asyncio.run(go())
+        return out['status'], out['headers'], out['body']
+
+    def mutate(v):
+        """what a responder that owns its parsed document may do to it"""
+        if isinstance(v, dict):
+            for k in list(v):
+                mutate(v[k])
+            v['__touched__'] = True
+            if len(v) > 1: v.pop(next(iter(v)))
+        elif isinstance(v, list):
+            for x in v:
+                mutate(x)
+            v.append('__touched__')
+            if len(v) > 1: v.pop(0)
+
+    FALSY = [[], {}, 0, 0.0, False, '', [[]], [{}], {'': ''}, [0], [False], [None], {'a': []}]
+    name_b2 = 'full-stack round trip: the document a responder serves is the document a responder receives, for every app construction, request after request (nothing shared between requests)'
+    for ci in range(ctx.n(250, 4000)):
+        doc = copy.deepcopy(rnd.choice(FALSY)) if rnd.random() < 0.4 else gen_doc()
+        if doc is None:
+            doc = [None]
+        s_out, s_in = rnd.choice(['wsgi', 'asgi']), rnd.choice(['wsgi', 'asgi'])
+        c_out, c_in = rnd.choice(['plain', 'plain', 'resp', 'req', 'both', 'alias']), rnd.choice(['plain', 'plain', 'resp', 'req', 'both', 'alias'])
+        served = copy.deepcopy(doc)
+        if s_out == 'wsgi':
+            class G:
+                def on_get(self, req, resp): resp.media = served
+        else:
+            class G:
+                async def on_get(self, req, resp): resp.media = served
+        seen_docs = []
+        if s_in == 'wsgi':
+            class P:
+                def on_post(self, req, resp):
+                    v = req.get_media(); seen_docs.append(copy.deepcopy(v)); mutate(v); resp.media = {'ok': True}
+        else:
+            class P:
+                async def on_post(self, req, resp):
+                    v = await req.get_media(); seen_docs.append(copy.deepcopy(v)); mutate(v); resp.media = {'ok': True}
+        failed = None
+        case = {'document': doc, 'serving_app': f'{s_out}/{c_out}', 'receiving_app': f'{s_in}/{c_in}'}
+        try:
+            a_out = build(s_out, c_out); a_out.add_route('/', G())
+            a_in = build(s_in, c_in); a_in.add_route('/', P())
+            st, hd, body = serve(s_out, a_out, 'GET')
+            if st != 200: failed = f'serving the document answered {st}'
+            elif hd.get('content-length') not in (None, str(len(body))): failed = f'Content-Length {hd.get("content-length")} for {len(body)} bytes'
+            else:
+                try:
+                    if not eq_doc(json.loads(body.decode('utf-8')), doc): failed = f'the body sent {body[:60]!r} is not the document'
+                except Exception as e:  # noqa
+                    failed = f'the body sent {body[:60]!r} does not decode: {type(e).__name__}'
+            if failed is None:
+                n_posts = rnd.choice([2, 2, 3])
+                for k in range(n_posts):
+                    # a second app of the other stack takes one of the later requests: the sharing, if any, is process-wide
+                    if k == n_posts - 1 and rnd.random() < 0.3:
+                        other = 'asgi' if s_in == 'wsgi' else 'wsgi'
+                        a2 = build(other, 'plain')
+                        if other == 'wsgi':
+                            class P2:
+                                def on_post(self, req, resp): seen_docs.append(copy.deepcopy(req.get_media()))
+                        else:
+                            class P2:
+                                async def on_post(self, req, resp): seen_docs.append(copy.deepcopy(await req.get_media()))
+                        a2.add_route('/', P2())
+                        stp, _, _ = serve(other, a2, 'POST', hd.get('content-type', 'application/json'), body)
+                    else:
+                        stp, _, _ = serve(s_in, a_in, 'POST', hd.get('content-type', 'application/json'), body)
+                    if stp != 200: failed = f'request #{k + 1} posting the served bytes back answered {stp}'; break
+                    if len(seen_docs) != k + 1: failed = f'request #{k + 1}: the responder did not get a document'; break
+                    if not eq_doc(seen_docs[k], doc):
+                        failed = f'request #{k + 1} received {seen_docs[k]!r}' + (' (the document as changed by the responder of an earlier request)' if k else ''); break
+        except Exception as e:  # noqa
+            failed = f'{type(e).__name__}: {e}'
+        ctx.oracle(name_b2, failed is None, failed, case)
+        ctx.seen(('b2', repr(doc), s_out, c_out, s_in, c_in), True)
+        ctx.count('fullstack_roundtrip_' + ('falsy' if not doc else 'doc'))
+        ctx.count('fullstack_app_' + c_out)
+
     # ------------------------------------------------------------ (c) the JSON text format of the default handler vs the Js model
     import lib_json as LJ
     from runner import hx
